@@ -222,7 +222,12 @@ def ec_privkey_add(secret, tweak, context=None):
         raise ValueError("Secret and tweak should both be 32 bytes long")
     s = int.from_bytes(secret, "big")
     t = int.from_bytes(tweak, "big")
+    # same rules as libsecp256k1: valid secret, tweak below the group order, non-zero result
+    if s == 0 or s >= _key.SECP256K1_ORDER or t >= _key.SECP256K1_ORDER:
+        raise ValueError("Failed to tweak the secret")
     r = (s + t) % _key.SECP256K1_ORDER
+    if r == 0:
+        raise ValueError("Failed to tweak the secret")
     return r.to_bytes(32, "big")
 
 
